@@ -299,6 +299,12 @@ impl Bundle for AppMarker {
 
     fn parse(bitstream: &mut Bitstream, _: ()) -> Result<Self, Self::Error> {
         let ty = bitstream.read_u32(0, 1, 2 + U(1), 4 + U(2))?;
+        if ty > 3 {
+            tracing::error!(ty, "Unknown APP marker type");
+            return Err(jxl_bitstream::Error::ValidationFailed(
+                "Unknown APP marker type",
+            ));
+        }
         let length = bitstream.read_bits(16)? + 1;
 
         // Markers of known types carry a fixed-size header, which is subtracted from `length`
